@@ -38,7 +38,7 @@ CHECKS = {
             "DESIGN.md §5 C06"),
     "C07": ("exploration",
             "bounded exhaustive enumeration of spellings per structure; engine JSON compared with a reference serialiser",
-            "For every program of a 10k-filter corpus (every operator, index kind, call shape, literal form; all 1-3 operator boolean structures): every alias assignment of the first 8 operator occurrences x whitespace layouts (minimal, single, double, LF, CR/LF mix, each gap alone, Unicode whitespace around) must give equal ASTs, byte-identical JSON equal to the reference document, identical C-API hash and identical std Hash; serialising twice is identical; over the whole set the map JSON -> structure is injective.",
+            "For every program of a 10k-filter corpus (every operator, index kind, call shape, literal form; all 1-3 operator boolean structures): every alias assignment of the first 8 operator occurrences x whitespace layouts (minimal, single, double, LF, CR/LF mix, each gap alone, Unicode whitespace around) must give equal ASTs, byte-identical JSON equal to the reference document, identical C-API hash and identical std Hash; the variant with every quoted string / regex literal written raw and vice versa is parsed too, and if its AST compares equal everything derived from it (JSON, C hash, Hash) must agree; serialising twice is identical; over the whole set the map JSON -> structure is injective.",
             "Reference serialiser harness/src/sem.rs::expr_json; whitespace alphabet as documented (space, CR, LF between tokens).",
             "DESIGN.md §5 C07"),
     "C08": ("model_checking",
@@ -48,7 +48,7 @@ CHECKS = {
             "DESIGN.md §5 C08"),
     "C09": ("exploration",
             "exhaustive enumeration of all lists up to a length bound over small ordered domains x all probes",
-            "All lists of <=4 (quick) / <=5 (thorough) items over all 29 ranges of a 7-point i64 domain (extremes, adjacent and far points) x 13 probes + absent; all lists of <=3 / <=4 items over 45 IPv4/IPv6 items (addresses, CIDRs where the range is one, explicit ranges, ::/0, mapped block) x 22 probes of both families; all byte-string lists of <=4 over 6 strings in three literal forms; long lists (all items in several orders, all-but-one); mapped and indexed left-hand sides. Oracle: exists item with lo <= x <= hi in x's family.",
+            "All lists of <=4 (quick) / <=5 (thorough) items over all 29 ranges of a 7-point i64 domain (extremes, adjacent and far points) x 13 probes + absent; all lists of <=3 / <=4 items over 45 IPv4/IPv6 items (addresses, CIDRs where the range is one, explicit ranges, ::/0, mapped block) x 22 probes of both families; all byte-string lists of <=4 over 6 strings in three literal forms; all single and paired items out of 32 long byte strings (15..1000 bytes, around every power of two, two per length) x all of them as probes; long lists (all items in several orders, all-but-one); mapped and indexed left-hand sides. Oracle: exists item with lo <= x <= hi in x's family.",
             "Endpoints outside the small domains are not explored (seed adds one).",
             "DESIGN.md §5 C09"),
     "C10": ("exploration",
@@ -58,7 +58,7 @@ CHECKS = {
             "DESIGN.md §5 C10"),
     "C11": ("exploration",
             "exhaustive enumeration of grammar-generated regexes and all short wildcard patterns x all short values against reference matchers",
-            "Every regex of <=4 (quick) / <=5 (thorough) nodes over {a,b,.,[ab],[^a],[\"],[\\]\"],[\\\"],[a\\\"],\\x61,a non-ASCII character,\",^,$} with ?,*,+,|,groups, in quoted and raw form, x every value of length <=3 over {a,b,A,\",LF,0xff,0xc3,0xa9}: result equals a backtracking reference matcher and the pattern stored in the JSON is the intended one; invalid regexes rejected; compiled-size limits {0,64,1024,65536,default} x dfa limits {0,default}, configured through ParserSettings and through the parser's setters (same decision, limits read back): no panic, unchanged answers, monotone acceptance. Every wildcard pattern of length <=4/5 over {a,A,b,*,\\,?} x both operators x raw/quoted x every value of length <=3/4 (incl. 0xff): validity (escapes, **), case rule and whole-value matching per the reference; star limits 0..4 through the setter and through ParserSettings.",
+            "Every regex of <=5 (quick) / <=6 (thorough) nodes over {a,b,.,[ab],[^a],[\"],[\\]\"],[\\\"],[a\\\"],\\x61,a non-ASCII character,\",^,$} with ?,*,+,|,groups, in quoted and raw form, x every value of length <=3 over {a,b,A,\",LF,0xff,0xc3,0xa9}: result equals a backtracking reference matcher and the pattern stored in the JSON is the intended one; invalid regexes rejected; compiled-size limits {0,64,1024,65536,default} x dfa limits {0,default}, configured through ParserSettings and through the parser's setters (same decision, limits read back): no panic, unchanged answers, monotone acceptance. Every wildcard pattern of length <=4/5 over {a,A,b,*,\\,?} x both operators x raw/quoted x every value of length <=3/4 (incl. 0xff): validity (escapes, **), case rule and whole-value matching per the reference; star limits 0..4 through the setter and through ParserSettings.",
             "Reference matchers harness/src/rx.rs; regex features outside the subset are not explored.",
             "DESIGN.md §5 C11"),
     "C14": ("exploration",
@@ -103,7 +103,7 @@ CHECKS = {
             "DESIGN.md §5 C12"),
     "C13": ("exploration",
             "exhaustive enumeration of nesting-construct sequences x limits x placements; subprocess for deep recursion",
-            "Every applicable sequence of the seven nesting constructs ((), not, !, any, all, call fb/fa, hex-named call fade) of length <=5 (quick) / <=7 (thorough) around a boolean and a boolean-array leaf x 6 placements (sole, left/right/middle chain operand, first/second call argument) x every limit 0..=7/8, configured both through set_max_nesting_depth and through ParserSettings: accepted iff reference nesting <= limit; limits 16, 64, 128 (also through the default parser), 129, 200 with pure and cyclic shapes at d-1, d, d+1; value expressions with call nests; six depth-200 filters are parsed, serialised, hashed (C API), compiled, executed against the reference value and dropped on a 1 MiB stack in a subprocess.",
+            "Every applicable sequence of the seven nesting constructs ((), not, !, any, all, call fb/fa, hex-named call fade) of length <=5 (quick) / <=7 (thorough) around a boolean and a boolean-array leaf x 6 placements (sole, left/right/middle chain operand, first/second call argument) x every limit 0..=7/8, configured both through set_max_nesting_depth and through ParserSettings: accepted iff reference nesting <= limit; limits 16, 64, 128 (also through the default parser), 129, 200, 255, 256, 257, 300, 1000 with pure and cyclic shapes at d-1, d, d+1, and 65535 with 65534..70000 nested (, not, !; value expressions with call nests; six depth-200 filters are parsed, serialised, hashed (C API), compiled, executed against the reference value and dropped on a 1 MiB stack in a subprocess.",
             "Nesting defined by ast::depth; rejection may carry any error kind.",
             "DESIGN.md §5 C13"),
 }
